@@ -1,8 +1,25 @@
 // ---- contract of the apply-cache trait (src/builder/cache/mod.rs `IteTable`) ----
+// The contract is structural (C16): a table remembers (standard triple, stored value) pairs; `get` returns
+// nothing or what was stored under exactly that triple, with the complement flag of the query re-applied.
+// What the stored values *mean* is the builder's invariant (see trusted/robdd_cells.rs), not the table's.
+
+/// the key a non-constant Ite is stored under
+pub open spec fn ite_key<T: DDNNFPtr>(ite: Ite<T>) -> (T, T, T) {
+    match ite {
+        Ite::IteChoice { f, g, h } | Ite::IteComplChoice { f, g, h } => (f, g, h),
+        Ite::IteConst(c) => (c, c, c),
+    }
+}
+/// the value stored for a result `res` of `ite` (complemented triples store the negation)
+pub open spec fn ite_stored<T: DDNNFPtr>(ite: Ite<T>, res: T) -> T {
+    if ite is IteComplChoice { res.neg_s() } else { res }
+}
+
 pub trait IteTable<T: DDNNFPtr> {
-    /// validity invariant: every stored entry (f,g,h) -> r satisfies  sem r == ite(sem f, sem g, sem h)
-    /// (plus the representation invariant of the backing store)
-    spec fn valid(&self) -> bool;
+    /// ghost view: the (triple, stored value) pairs the table may still return
+    spec fn entries(&self) -> ISet<((T, T, T), T)>;
+    /// representation invariant of the backing store
+    spec fn wf(&self) -> bool;
     /// A-cap: machine-word limits of the backing store are not reached (see Lru::in_range)
     spec fn cap_ok(&self) -> bool;
     /// the hash the table expects for a triple
@@ -13,14 +30,17 @@ pub trait IteTable<T: DDNNFPtr> {
 
     fn insert(&mut self, ite: Ite<T>, res: T, hash: u64)
         requires
-            old(self).valid(), old(self).cap_ok(), hash == Self::hash_spec(ite),
-            forall|env: Env| #[trigger] tr(env) ==> res.sem(env) == ite_sem(ite, env),
+            old(self).wf(), old(self).cap_ok(), hash == Self::hash_spec(ite),
         ensures
-            final(self).valid();
+            final(self).wf(),
+            // nothing appears in the table except (possibly) the pair just inserted
+            forall|k: (T, T, T), s: T| #[trigger] final(self).entries().contains((k, s)) ==>
+                old(self).entries().contains((k, s)) || (!(ite is IteConst) && k == ite_key(ite) && s == ite_stored(ite, res));
 
     fn get(&self, ite: Ite<T>, hash: u64) -> (r: Option<T>)
         requires
-            self.valid(), hash == Self::hash_spec(ite),
+            self.wf(), hash == Self::hash_spec(ite),
         ensures
-            r matches Some(v) ==> forall|env: Env| #[trigger] tr(env) ==> v.sem(env) == ite_sem(ite, env);
+            r matches Some(v) ==>
+                if ite is IteConst { v == ite->IteConst_0 } else { self.entries().contains((ite_key(ite), ite_stored(ite, v))) };
 }
